@@ -101,8 +101,9 @@ let () =
             theorems (upload_abort_restores, copy_fault_restores) are the proof side *)
          let wlimit = (match drv with L l -> (match List.rev l with last :: _ -> (try int_ last with _ -> 0) | [] -> 0) | _ -> 0) in
          if wlimit > 0 then bump (if int_of_n o.status >= 400 then "write_fault_failed" else "write_fault_not_hit");
+         if wlimit < 0 then bump (if int_of_n o.status >= 400 then "raced_failed" else "raced_succeeded");
          let agree, spec = match mode with
-           | "c02" when wlimit > 0 -> spec_c02 sb o aft, spec_c02 sb o aft
+           | "c02" when wlimit <> 0 -> spec_c02 sb o aft, spec_c02 sb o aft
            | "c02" -> agrees_c02 root sb r o aft, spec_c02 sb o aft
            | "c03" -> agrees_c03 root sb r o aft, spec_c03 root sb r o aft
            | "c17" -> agrees_c17 root sb r o, spec_c17 o
